@@ -117,7 +117,7 @@ def run(ctx):
     for k in range(ctx.budget(40, 500)):
         net = ds_net(rng)
         opts = dict(distributed_slack=True, voltage_depend_loads=False, numba=rng.random() < 0.5,
-                    calculate_voltage_angles=rng.random() < 0.7)
+                    calculate_voltage_angles=rng.random() < 0.7, tolerance_mva=1e-9)      # the shares are compared to 1e-6 MW
         case = {"options": opts, "net_json": pp.to_json(net), "second": None}
         del calls[:]
         pfs._split_p_for_gens_at_same_bus = spy
